@@ -384,13 +384,6 @@ Proof. intros es. destruct (run_keeps' es init_sst) as [H _]. apply H. reflexivi
 
 (* ------------------------------------------------------------ the theorems *)
 
-Fixpoint processed_with (c : N -> bool) (es : list sevent) : bool :=
-  match es with
-  | [] => false
-  | EProcess _ _ _ _ qt :: r => c qt || processed_with c r
-  | _ :: r => processed_with c r
-  end.
-
 Lemma not_crashed_prefix : forall l1 l2 s,
   ss_crashed (run s (l1 ++ l2)) = false -> ss_crashed (run s l1) = false.
 Proof.
@@ -415,31 +408,175 @@ Proof.
   destruct Hin as [Hin|Hin].
   2: { destruct (run_keeps' r (step s e)) as [Hm _]. apply Hm.
        destruct (step_keeps' s e) as [Hm' _]. apply Hm'. exact Hin. }
-  destruct e as [k v o|act deact|act deact before live qt| |v p|];
-    try (cbn [processed_with] in Hp; apply (IH _ id t); [|exact Hnc|exact Hp];
-         destruct (step_keeps' s ltac:(eassumption || idtac)) ; fail).
-  all: cbn [processed_with] in Hp.
-  all: match goal with
-       | |- is_closed (run (step s ?ev) r) id = true =>
-         destruct (step_keeps' s ev) as [_ [Hk _]]; destruct (Hk (id, t) Hin) as [Hk1|Hk1]
-       end.
-  all: try (apply (IH _ id t); [left; exact Hk1 | exact Hnc | exact Hp]; fail).
-  all: try (apply (IH _ id t); [right; exact Hk1 | exact Hnc | exact Hp]; fail).
-  (* EProcess *)
-  all: destruct (t <=? qt)%N eqn:Et; cbn [orb] in Hp.
-  all: try (apply (IH _ id t); [left; exact Hk1 | exact Hnc | exact Hp]; fail).
-  all: try (apply (IH _ id t); [right; exact Hk1 | exact Hnc | exact Hp]; fail).
-  - (* the tick is reached by this processSubscriptions *)
-    destruct (run_keeps' r (step s (EProcess act deact before live qt))) as [Hm _]. apply Hm.
-    unfold step. rewrite Hc. unfold process_subs.
-    destruct (process_when_query_keeps
-                (process_when_queue (process_when_time (process_when s act deact) before live) qt) live)
-      as [_ [Hm2 _]]. apply Hm2.
-    destruct (keeps_trans _ _ _ (process_when_keeps s act deact)
-                (process_when_time_keeps (process_when s act deact) before live)) as [_ [_ [Hk2 _]]].
-    destruct (Hk2 (id, t) Hin) as [H|H].
-    + eapply process_when_queue_closes; eassumption.
-    + destruct (process_when_queue_keeps (process_when_time (process_when s act deact) before live) qt)
-        as [_ [Hm3 _]]. apply Hm3. exact H.
-  - destruct (run_keeps' r (step s (EProcess act deact before live qt))) as [Hm _]. apply Hm. exact Hk1.
+  destruct (step_keeps' s e) as [_ [Hk _]]. destruct (Hk (id, t) Hin) as [Hk1|Hk1].
+  2: { destruct (run_keeps' r (step s e)) as [Hm _]. apply Hm. exact Hk1. }
+  destruct e as [k v o|act deact|act deact before live qt| |v p|]; cbn [processed_with] in Hp;
+    try (apply (IH _ id t); [left; exact Hk1 | exact Hnc | exact Hp]).
+  destruct (t <=? qt)%N eqn:Et; cbn [orb] in Hp;
+    [|apply (IH _ id t); [left; exact Hk1 | exact Hnc | exact Hp]].
+  (* the tick is reached by this processSubscriptions *)
+  destruct (run_keeps' r (step s (EProcess act deact before live qt))) as [Hm _]. apply Hm.
+  unfold step. rewrite Hc. unfold process_subs.
+  destruct (process_when_query_keeps
+              (process_when_queue (process_when_time (process_when s act deact) before live) qt) live)
+    as [_ [Hm2 _]]. apply Hm2.
+  destruct (keeps_trans _ _ _ (process_when_keeps s act deact)
+              (process_when_time_keeps (process_when s act deact) before live)) as [_ [_ [Hk2 _]]].
+  destruct (Hk2 (id, t) Hin) as [H|H].
+  - eapply process_when_queue_closes; eassumption.
+  - destruct (process_when_queue_keeps (process_when_time (process_when s act deact) before live) qt)
+      as [_ [Hm3 _]]. apply Hm3. exact H.
+Qed.
+
+Lemma crashed_step : forall s e r, ss_crashed (run s (e :: r)) = false -> ss_crashed s = false.
+Proof.
+  intros s e r H. destruct (ss_crashed s) eqn:E; [|reflexivity].
+  rewrite (run_crashed (e :: r) s E) in H. congruence.
+Qed.
+
+Lemma qe_track : forall post s id,
+  In id (ss_qe s) \/ is_closed s id = true ->
+  ss_crashed (run s post) = false -> In EQueueEnd post ->
+  is_closed (run s post) id = true.
+Proof.
+  induction post as [|e r IH]; intros s id Hin Hnc Hp; [contradiction|].
+  pose proof (crashed_step _ _ _ Hnc) as Hc. rewrite run_cons in *.
+  destruct Hin as [Hin|Hin].
+  2: { destruct (run_keeps' r (step s e)) as [Hm _]. apply Hm.
+       destruct (step_keeps' s e) as [Hm' _]. apply Hm'. exact Hin. }
+  destruct Hp as [Hp|Hp].
+  - subst e. destruct (run_keeps' r (step s EQueueEnd)) as [Hm _]. apply Hm.
+    unfold step. rewrite Hc. apply process_queue_ends_closes. exact Hin.
+  - destruct (step_keeps' s e) as [_ [_ [Hk _]]]. destruct (Hk id Hin) as [Hk1|Hk1].
+    + apply IH; [left; exact Hk1 | exact Hnc | exact Hp].
+    + apply IH; [right; exact Hk1 | exact Hnc | exact Hp].
+Qed.
+
+Lemma sc_track : forall post s x id t,
+  sctx_get (ss_sctx s) x = Some (id, t) \/ is_closed s id = true ->
+  ss_crashed (run s post) = false -> ctx_touched x post = true ->
+  is_closed (run s post) id = true.
+Proof.
+  induction post as [|e r IH]; intros s x id t Hin Hnc Hp; [discriminate|].
+  pose proof (crashed_step _ _ _ Hnc) as Hc. rewrite run_cons in *.
+  destruct Hin as [Hin|Hin].
+  2: { destruct (run_keeps' r (step s e)) as [Hm _]. apply Hm.
+       destruct (step_keeps' s e) as [Hm' _]. apply Hm'. exact Hin. }
+  destruct (step_keeps' s e) as [_ [_ [_ Hk]]]. destruct (Hk x (id, t) Hin) as [Hk1|Hk1].
+  2: { destruct (run_keeps' r (step s e)) as [Hm _]. apply Hm. exact Hk1. }
+  destruct e as [k v o|act deact|act deact before live qt| |v p|]; cbn [ctx_touched] in Hp;
+    try (apply (IH _ x id t); [left; exact Hk1 | exact Hnc | exact Hp]).
+  destruct (mem x (act ++ deact)) eqn:Em; cbn [orb] in Hp;
+    [|apply (IH _ x id t); [left; exact Hk1 | exact Hnc | exact Hp]].
+  destruct (run_keeps' r (step s (EStateCtx act deact))) as [Hm _]. apply Hm.
+  unfold step. rewrite Hc.
+  change (process_state_ctx s act deact) with (fold_left psc_step (act ++ deact) s).
+  eapply process_state_ctx_closes; [exact Hin | apply mem_In; exact Em].
+Qed.
+
+(* ---- statements *)
+
+Lemma split_run : forall pre e post,
+  run init_sst (pre ++ e :: post) = run (step (run init_sst pre) e) post.
+Proof. intros. rewrite run_app, run_cons. reflexivity. Qed.
+
+Lemma closed_of_after : forall pre k v o post,
+  fresh_k k post -> ss_crashed (run init_sst (pre ++ EOp k v o :: post)) = false ->
+  let s1 := run init_sst pre in
+  ss_crashed s1 = false /\
+  closed_of (run init_sst (pre ++ EOp k v o :: post)) k
+  = match snd (do_op s1 v o) with
+    | RChan id | RCtx id _ => is_closed (run (step s1 (EOp k v o)) post) id
+    | _ => false
+    end.
+Proof.
+  intros pre k v o post Hf Hnc s1.
+  assert (Hc1 : ss_crashed s1 = false) by (eapply not_crashed_prefix; exact Hnc).
+  split; [exact Hc1|]. rewrite split_run. fold s1. unfold closed_of.
+  rewrite (ret_stable_all post _ k Hf).
+  pose proof (step_rets s1 (EOp k v o)) as Hr. cbv beta iota in Hr. rewrite (Hr Hc1).
+  cbn [ret_of]. rewrite Nat.eqb_refl. reflexivity.
+Qed.
+
+(* WhenQueue: no lost wake-up *)
+Theorem whenqueue_no_lost_lemma : forall pre k v t post,
+  let es := pre ++ EOp k v (OWhenQueue t) :: post in
+  fresh_k k post -> ss_crashed (run init_sst es) = false ->
+  (t <=? v_qtick v)%N || processed_with (fun qt => (t <=? qt)%N) post = true ->
+  closed_of (run init_sst es) k = true.
+Proof.
+  intros pre k v t post es Hf Hnc Hcond. subst es.
+  destruct (closed_of_after pre k v (OWhenQueue t) post Hf Hnc) as [Hc1 Hcl]. rewrite Hcl. clear Hcl.
+  pose proof (closed_zero (pre ++ EOp k v (OWhenQueue t) :: post)) as Hz.
+  rewrite split_run in Hnc, Hz. set (s1 := run init_sst pre) in *.
+  assert (Hstep : step s1 (EOp k v (OWhenQueue t))
+                  = add_ret (fst (do_op s1 v (OWhenQueue t))) k (snd (do_op s1 v (OWhenQueue t))))
+    by (apply step_op; exact Hc1).
+  unfold do_op in *. destruct (ss_disposed s1 || (t <=? v_qtick v)%N) eqn:E; cbn [fst snd] in *; [exact Hz|].
+  apply orb_false_iff in E. destruct E as [_ E]. rewrite E in Hcond. cbn [orb] in Hcond.
+  eapply wq_track; [|exact Hnc|exact Hcond]. left.
+  rewrite Hstep. psimpl. apply in_or_app. right. left. reflexivity.
+Qed.
+
+(* WhenQueueEnds: closed at once on an idle machine, else by the next queue end *)
+Theorem whenqueueends_lemma : forall pre k v post,
+  let es := pre ++ EOp k v OWhenQueueEnds :: post in
+  fresh_k k post -> ss_crashed (run init_sst es) = false ->
+  v_running v = false \/ In EQueueEnd post ->
+  closed_of (run init_sst es) k = true.
+Proof.
+  intros pre k v post es Hf Hnc Hcond. subst es.
+  destruct (closed_of_after pre k v OWhenQueueEnds post Hf Hnc) as [Hc1 Hcl]. rewrite Hcl. clear Hcl.
+  pose proof (closed_zero (pre ++ EOp k v OWhenQueueEnds :: post)) as Hz.
+  rewrite split_run in Hnc, Hz. set (s1 := run init_sst pre) in *.
+  assert (Hstep : step s1 (EOp k v OWhenQueueEnds)
+                  = add_ret (fst (do_op s1 v OWhenQueueEnds)) k (snd (do_op s1 v OWhenQueueEnds)))
+    by (apply step_op; exact Hc1).
+  unfold do_op in *. destruct (ss_disposed s1 || negb (v_running v)) eqn:E; cbn [fst snd] in *; [exact Hz|].
+  apply orb_false_iff in E. destruct E as [_ E]. apply negb_false_iff in E.
+  destruct Hcond as [Hcond|Hcond]; [congruence|].
+  eapply qe_track; [|exact Hnc|exact Hcond]. left.
+  rewrite Hstep. psimpl. apply in_or_app. right. left. reflexivity.
+Qed.
+
+(* state contexts: canceled by the next ProcessStateCtx that lists the state *)
+Theorem statectx_no_lost_lemma : forall pre k v x post,
+  let es := pre ++ EOp k v (ONewStateCtx x) :: post in
+  fresh_k k post -> ss_crashed (run init_sst es) = false -> known v [x] = true ->
+  ctx_touched x post = true ->
+  closed_of (run init_sst es) k = true.
+Proof.
+  intros pre k v x post es Hf Hnc Hk Hcond. subst es.
+  destruct (closed_of_after pre k v (ONewStateCtx x) post Hf Hnc) as [Hc1 Hcl]. rewrite Hcl. clear Hcl.
+  rewrite split_run in Hnc. set (s1 := run init_sst pre) in *.
+  assert (Hstep : step s1 (EOp k v (ONewStateCtx x))
+                  = add_ret (fst (do_op s1 v (ONewStateCtx x))) k (snd (do_op s1 v (ONewStateCtx x))))
+    by (apply step_op; exact Hc1).
+  unfold do_op in *. rewrite Hk in *. cbn [negb] in *.
+  destruct (sctx_get (ss_sctx s1) x) as [[id t0]|] eqn:E; cbn [fst snd] in *.
+  - eapply sc_track; [|exact Hnc|exact Hcond]. left. rewrite Hstep. psimpl. exact E.
+  - eapply sc_track; [|exact Hnc|exact Hcond]. left. rewrite Hstep. psimpl.
+    assert (G : forall l, sctx_get l x = None ->
+              sctx_get (l ++ [(x, (ss_next s1, tick_of (sclock s1 (v_clock v)) x))]) x
+              = Some (ss_next s1, tick_of (sclock s1 (v_clock v)) x)).
+    { induction l as [|[k0 v0] r IH]; intros H; simpl in *; [rewrite Nat.eqb_refl; reflexivity|].
+      destruct (Nat.eqb k0 x); [discriminate | apply IH; exact H]. }
+    apply G. exact E.
+Qed.
+
+(* the other direction, function level: ProcessStateCtx cancels nothing but
+   contexts of listed states *)
+Lemma process_state_ctx_only : forall l s i,
+  is_closed (fold_left psc_step l s) i = true ->
+  is_closed s i = true \/
+  exists x t, In x l /\ In (x, (i, t)) (ss_sctx s).
+Proof.
+  induction l as [|y r IH]; intros s i H; simpl in H; [tauto|].
+  destruct (IH _ _ H) as [H1|[x [t [Hx Hi]]]].
+  - unfold psc_step in H1. destruct (sctx_get (ss_sctx s) y) as [[id t]|] eqn:E; [|tauto].
+    unfold is_closed in H1. psimpl. apply close_mem in H1. destruct H1 as [H1|H1]; [|tauto].
+    subst i. right. exists y, t. split; [left; reflexivity | apply sctx_get_In; exact E].
+  - right. exists x, t. split; [right; exact Hx|].
+    unfold psc_step in Hi. destruct (sctx_get (ss_sctx s) y) as [[id t']|]; [|exact Hi].
+    psimpl. apply filter_In in Hi. tauto.
 Qed.
